@@ -106,6 +106,9 @@ structure RS where
   ancestors : List Anc := []
   uifStack : List (List String) := []
   octx : OCtx := {}
+  /-- `SingleFieldSubscriptionsChecker._fragments` (last definition of a name wins) and the bound for the collection -/
+  sfsFrags : AL (List Sel) := []
+  sfsFuel : Nat := 0
   deriving Inhabited
 
 def RS.err (r : Rule) (s : RS) : RS := { s with errs := r :: s.errs }
@@ -115,6 +118,42 @@ def RS.errN (r : Rule) (n : Nat) (s : RS) : RS := { s with errs := List.replicat
 def dupCount : List String → List String → Nat
   | _, [] => 0
   | seen, x :: xs => (if seen.contains x then 1 else 0) + dupCount (x :: seen) xs
+
+/-! ### SingleFieldSubscriptionsChecker: `CollectFields` restricted to response keys (proposed_fixes/C06-H6) -/
+
+mutual
+def selSize : Sel → Nat
+  | .field _ _ _ _ _ _ sub => selsSize sub + 1
+  | .spread _ _ => 1
+  | .inline _ _ _ sub => selsSize sub + 1
+def selsSize : List Sel → Nat
+  | [] => 0
+  | x :: xs => selSize x + selsSize xs
+end
+
+/-- `_response_keys` as a work list: inline fragments and (once each) named fragments are opened, fields with the same
+    response key are one entry. `fuel` bounds the number of selections processed (every fragment is opened once) -/
+def rootKeysGo (frs : AL (List Sel)) : Nat → List Sel → List String → List String → List String
+  | 0, _, ks, _ => ks
+  | _ + 1, [], ks, _ => ks
+  | f + 1, .field alias name _ _ _ _ _ :: rest, ks, vis =>
+    let k := match alias with | some a => a | none => name
+    rootKeysGo frs f rest (if ks.contains k then ks else ks ++ [k]) vis
+  | f + 1, .inline _ _ _ sub :: rest, ks, vis => rootKeysGo frs f (sub ++ rest) ks vis
+  | f + 1, .spread name _ :: rest, ks, vis =>
+    if vis.contains name then rootKeysGo frs f rest ks vis
+    else match AL.get? frs name with
+      | some sels => rootKeysGo frs f (sels ++ rest) ks (name :: vis)
+      | none => rootKeysGo frs f rest ks (name :: vis)
+
+/-- the fragment table and the bound of a document -/
+def sfsTable (d : Doc) : AL (List Sel) :=
+  d.defs.foldl (fun m x => match x with | .frag n _ _ _ sels => AL.set m n sels | _ => m) []
+def sfsBound (d : Doc) : Nat :=
+  d.defs.foldl (fun n x => match x with | .frag _ _ _ _ sels => n + selsSize sels + 1 | .op _ _ _ _ _ sels => n + selsSize sels + 1 | _ => n) 1
+
+/-- the response keys of the root selection set of an operation of `d` -/
+def rootKeys (frs : AL (List Sel)) (fuel : Nat) (sels : List Sel) : List String := rootKeysGo frs fuel sels [] []
 
 def fragDefs (d : Doc) : List (String × String × Nat × List Sel) :=
   d.defs.filterMap fun | .frag n on _ id sels => some (n, on, id, sels) | _ => none
@@ -182,9 +221,8 @@ def parseLiteralFails (scalar : String) (v : Value) : Option Bool :=
   else
     -- custom scalar built from SDL: `parse_literal = _untyped_literal` (/repo a2b8a10): every literal is accepted -
     -- scalar and enum literals by their `.value`, `null`, list and object literals converted (JSON-like scalars)
-    match v with
-    | .var _ => some true
-    | _ => some false
+    -- a variable anywhere inside has no `.value`: the conversion raises, reported as an invalid literal
+    some v.hasVar
 
 /-- `_check_scalar(node)`: errors added (0/1), or `none` = crash -/
 def checkScalar (s : SchemaD) (ti : TI) (v : Value) : Option Nat :=
@@ -196,6 +234,10 @@ def checkScalar (s : SchemaD) (ti : TI) (v : Value) : Option Nat :=
       | none => none
       | some true => some 1
       | some false => some 0
+
+/-- `enter_object_value` at a position that is not of input-object type raises `SkipNode` only when `_check_scalar`
+    reported (proposed_fixes/C06-H5: an ACCEPTED object literal - custom scalar - stays visible to the other rules) -/
+def scalarSkip (o : Option Nat) : Bool := o != some 0
 
 def RS.addOpt (r : Rule) (o : Option Nat) (st : RS) : RS :=
   match o with
@@ -216,8 +258,9 @@ def enterRule (s : SchemaD) (fx : Fixes) (r : Rule) (n : Node) (ti : TI) (st : R
     let ops := d.defs.filter (·.isOp)
     let anon := ops.any (·.isAnonOp)
     if anon && ops.length > 1 then (st.err r, true) else (st, false)
+  | singleFieldSubscriptions, .document d => ({ st with sfsFrags := sfsTable d, sfsFuel := sfsBound d }, false)
   | singleFieldSubscriptions, .operation kind _ _ _ sels =>
-    (if kind == "subscription" && sels.length != 1 then st.err r else st, false)
+    (if kind == "subscription" && (rootKeys st.sfsFrags st.sfsFuel sels).length != 1 then st.err r else st, false)
   | knownTypeNames, .typeNode t => (if (typeFromAst s t).isNone then st.err r else st, false)
   | fragmentsOnCompositeTypes, .inline (some on) _ =>
     -- unknown type: `isComposite` is false; reported ("Unknown type") and skipped as well
@@ -332,8 +375,8 @@ def enterRule (s : SchemaD) (fx : Fixes) (r : Rule) (n : Node) (ti : TI) (st : R
         if isInputObject s b then
           let given := fs.map (·.name)
           (st.errN r ((inputFields s b).filter fun fd => ArgD.required fd && !given.contains fd.name).length, false)
-        else (st.addOpt r (checkScalar s ti v), true)
-      | none => (st.addOpt r (checkScalar s ti v), true)
+        else (st.addOpt r (checkScalar s ti v), scalarSkip (checkScalar s ti v))
+      | none => (st.addOpt r (checkScalar s ti v), scalarSkip (checkScalar s ti v))
     | _ => (st, false)
   | valuesOfCorrectType, .objField _ =>
     (match ti.inputType, ti.parentInputType s fx with
